@@ -219,7 +219,8 @@ def theorem_names(module):
             ns.pop()
         m = re.match(r"^(?:@\[[^\]]*\]\s*)?theorem\s+(\S+)", line)
         if m:
-            names.append(".".join(ns + [m.group(1)]))
+            n = m.group(1)
+            names.append(n[len("_root_."):] if n.startswith("_root_.") else ".".join(ns + [n]))
     return names
 
 
